@@ -7,20 +7,21 @@ import (
 
 // Violation is one failed oracle on one run.
 type Violation struct {
-	Property  string          `json:"property"`
-	Sig       string          `json:"signature"` // violation class; stable under minimisation
-	Detail    string          `json:"detail"`
-	Leg       string          `json:"leg"`
-	Tier      string          `json:"tier"`
-	Seed      uint64          `json:"seed"` // VERIF_SEED
-	Run       int             `json:"run"`
-	RunSeed   uint64          `json:"run_seed"`
-	Tape      []uint32        `json:"tape"`
-	Case      json.RawMessage `json:"case"` // materialised, generator-independent
-	EventHash string          `json:"event_hash"`
-	Minimised bool            `json:"minimised"`
-	MinExecs  int             `json:"minimiser_executions"`
-	OrigTape  int             `json:"original_tape_len"`
+	Property  string            `json:"property"`
+	Sig       string            `json:"signature"` // violation class; stable under minimisation
+	Detail    string            `json:"detail"`
+	Leg       string            `json:"leg"`
+	Tier      string            `json:"tier"`
+	Params    map[string]string `json:"params,omitempty"`
+	Seed      uint64            `json:"seed"` // VERIF_SEED
+	Run       int               `json:"run"`
+	RunSeed   uint64            `json:"run_seed"`
+	Tape      []uint32          `json:"tape"`
+	Case      json.RawMessage   `json:"case"` // materialised, generator-independent
+	EventHash string            `json:"event_hash"`
+	Minimised bool              `json:"minimised"`
+	MinExecs  int               `json:"minimiser_executions"`
+	OrigTape  int               `json:"original_tape_len"`
 }
 
 // RunOpt is what a leg passes to every run.
